@@ -10,6 +10,7 @@
    (finding D17: the alphabet tables admit runes the encoder rejects).  The proofs
    check, inside the kernel, that the set of runes Validate admits is included in
    accepted-by-the-encoder U known-bad: one new bad code point breaks them. *)
+From V Require Import Model.Gsm7 Proofs.DetectGsm7Agree.
 From V Require Import Model.Base Model.IntervalMap Gen.Charsets Model.Charset Model.Splitter Model.Compose
   Gen.Detect Gen.KnownBad Model.Detect Model.ComposePipeline Proofs.DetectProofs Proofs.ComposePipeline Proofs.PipelineFull.
 Open Scope N_scope.
@@ -219,3 +220,27 @@ Example C09_pipeline_examples :
   pipeline 7 (rept 40000 [97]) = Err ECount /\
   pipeline_safe 300 (rept 40000 [1046]) = Err ECount.
 Proof. exact pipeline_examples. Qed.
+
+(* Compose on a value that CARRIES A USER-DATA HEADER (a part made by ComposeMultipartShortMessage, a decoded segment): the
+   state is (data_coding, header, octets); the header is neither read nor written, label and octets are those of
+   compose_step on (data_coding, octets) - hence C09_compose_reused applies whatever header the value holds (Parse does
+   not look at the header either).  The direct test also reads the octets WriteTo produces back with the header
+   indicator the value implies.  Outside C09: header + text may exceed 140 octets (Compose fits the text alone). *)
+Theorem C09_compose_reused_header : forall (H : Type) (dc : N) (u : H) (o : bytes) rs,
+  let r := compose_step_u (dc, u, o) rs in
+  snd (fst (fst r)) = u /\
+  (fst (fst (fst r)), snd (fst r)) = fst (compose_step (dc, o) rs) /\ snd r = snd (compose_step (dc, o) rs).
+Proof. exact @compose_step_u_spec. Qed.
+
+(* The two hand-written models of the GSM 7-bit encoder are ONE function: Model/Gsm7.v (coding/gsm7bit transcribed statement
+   by statement - C07 and C08 speak about it) and the table model of Model/Detect.v (per-rune septets regenerated from the
+   running code, bit-list packing - the theorems above speak about it): equal septets for every rune, for every text, and
+   equal octets for every text (g7_pack has the bit layout that characterises Gsm7.encode).  So C08's statements about
+   Gsm7.encode and C09's about encode_l LGsm7 are about the same octets.  (Decoders: each model proves its own round trip on
+   these octets - Gsm7Proofs.roundtrip_exact, g7_roundtrip - so they agree on every encoder output outside the CR class;
+   not packaged as one statement.) *)
+Theorem C09_gsm7_models_agree :
+  (forall r, Gsm7.rune_septets r = g7_rune r) /\
+  (forall t, Gsm7.to_septets t = g7_septets t) /\
+  (forall t, Gsm7.encode t = encode_l LGsm7 t).
+Proof. exact (conj rune_agree (conj septets_agree gsm7_encoders_agree)). Qed.
